@@ -7,7 +7,8 @@
    C20/Example.mini with Sess.SimpleCodec as the decoder. *)
 From Coq Require Import NArith ZArith List Bool.
 From F8 Require Import Sess.Bytes Sess.Msg Sess.Persist Sess.Session Sess.SimpleCodec Sess.Wire
-  C20.Peer C20.Example C21.TwoParty C21.Spec_C21 C21.Loss C21.Example21 C21.WitnessProofs21.
+  Sess.SendLemmas C20.Peer C20.Classify C20.SessFacts C20.BurstProofs C20.Example
+  C21.TwoParty C21.Pair C21.Spec_C21 C21.Loss C21.Example21 C21.WitnessProofs21 C21.NoFaultProofs C21.SimProofs C21.TwoPartyProofs.
 Import ListNotations.
 Local Open Scope N_scope.
 
@@ -42,5 +43,52 @@ Theorem c21_examples :
   (let tr := run21 w_quiet_drop in
    c21_ok w_quiet_drop tr = true /\ c21_exact w_quiet_drop tr = true /\ c21_class w_quiet_drop tr = 0 /\
    has_fault w_quiet_drop = true).
-Proof. split; [exact no_fault_exact|exact quiet_drop_harmless]. Qed.
+Proof. exact examples21. Qed.
 Print Assumptions c21_examples.
+
+(* c21_nofault_partial.  Vocabulary: Pair.pair = the two session states and the two in-flight byte lists; Pair.fstep /
+   frun = the fault-free operations on them (FSendI m / FSendA m = Session::send, FDeliverA / FDeliverI = the bytes in
+   flight reach FIXReader's loop); synced p = both sessions logged on (state continuous, reader running, socket open,
+   nothing batched), facing each other, nothing in flight, each side's expected number = the other side's next
+   outbound number; valid_run p ops = every message of the schedule is a simple application message (known
+   application type, body fields only) AND is read back by the receiving side's decoder, in the state in which it is
+   sent, as "new application message with the sender's next number" (an executable condition about the codec alone);
+   sent_list b ops n = the (type, number, PossDup=false) triples of the initiator's (b = true) / acceptor's sends,
+   numbered consecutively from n; dels = the DELIVER events of an event list.
+   For EVERY schema (wf_schema: the header fields the session adds are known), decoder, session configuration and
+   persister, and EVERY schedule of sends and deliveries in ANY interleaving, followed by one delivery per direction:
+   the acceptor's application is handed exactly the initiator's messages -- each once, in send order, never PossDup --
+   and vice versa, and the pair is synced again (no one terminates, numbers match). *)
+Theorem c21_nofault_partial :
+  forall sc decode fl now, wf_schema sc = true ->
+  forall ops p, synced p -> valid_run sc decode fl now p ops ->
+  exists p' ei ea,
+    frun sc decode fl now p (ops ++ [FDeliverA; FDeliverI]) = (p', ei, ea) /\
+    synced p' /\
+    dels ea = sent_list true ops (s_next_send (pa_i p)) /\
+    dels ei = sent_list false ops (s_next_send (pa_a p)).
+Proof. exact nofault_delivery. Qed.
+Print Assumptions c21_nofault_partial.
+
+(* ... and for the two-party model itself: when the two Sess.Wire worlds of TwoParty hold a synced pair (sim), the
+   events of run_sops on a schedule of SI/SA/DA/DI operations (corr: each SEND builds the message of the session-level
+   schedule) followed by DA, DI show exactly these deliveries. *)
+Theorem c21_nofault_twoparty :
+  forall sc decode fl now, wf_schema sc = true ->
+  forall sops fops t p,
+  sim now t p -> synced p -> Forall2 (corr sc) sops fops -> valid_run sc decode fl now p fops ->
+  let evs := map step_events (run_sops sc decode fl t (sops ++ [SDeliverA; SDeliverI])) in
+  dels (concat (map snd evs)) = sent_list true fops (s_next_send (pa_i p)) /\
+  dels (concat (map fst evs)) = sent_list false fops (s_next_send (pa_a p)).
+Proof. exact twoparty_nofault. Qed.
+Print Assumptions c21_nofault_twoparty.
+
+(* The hypotheses are met: on the small schema, with Sess.SimpleCodec as the decoder, the two-party model after
+   creation and the Logon exchange (t_logged) holds a synced pair, and the schedule SI SA DA SI SA DI SI of
+   NewOrderSingle messages is valid for it (every message is read back by the codec as required). *)
+Theorem c21_nofault_nonvacuous :
+  wf_schema mini = true /\
+  exists p, proj_pair t_logged = Some p /\ sim T0 t_logged p /\ synced p /\
+            Forall2 (corr mini) sops_w fops_w /\ valid_run mini dec_mini [] T0 p fops_w.
+Proof. exact nofault_instance. Qed.
+Print Assumptions c21_nofault_nonvacuous.
